@@ -41,23 +41,96 @@ def _patched_wait(self):
 
 
 class StubContext:
-    """What SignalManager needs from a QMI_Context."""
+    """The public surface of QMI_Context that a SignalManager may use, answered from the state of the simulation
+    (object set, connectivity of the simulated network).  Anything else raises common.TieBroken naming the missing
+    method, so that a new dependency of the code under test shows up as a broken tie with a clear message."""
 
     def __init__(self, sim, name, objs):
         self.sim = sim
         self.name = name
         self.objs = set(objs)
         self.peers = []          # contexts the router can send to
-        self.handler = None
+        self.handlers = {}
+        self._counters = {}
+        self.suppress_version_mismatch_warnings = False
+        self.workgroup_name = "default"
 
+    # ---- message routing
     def register_message_handler(self, handler):
+        self.handlers[handler.address.object_id] = handler
         self.handler = handler
 
-    def get_rpc_object_descriptor(self, name):
-        return ("descriptor", name) if name in self.objs else None
+    def unregister_message_handler(self, handler):
+        self.handlers.pop(handler.address.object_id, None)
 
     def send_message(self, message):
         self.sim.on_send(self.name, message)
+
+    # ---- connectivity (the state of the simulated network, as the message router reports it)
+    def has_peer_context(self, peer_context_name):
+        return peer_context_name in self.peers
+
+    def get_peer_context_names(self):
+        return list(self.peers)
+
+    # ---- objects
+    def get_rpc_object_descriptor(self, name):
+        return ("descriptor", name) if name in self.objs else None
+
+    def get_rpc_object_descriptors(self):
+        return [("descriptor", n) for n in sorted(self.objs)]
+
+    def list_rpc_objects(self, category=None):
+        return [(n, "StubObject") for n in sorted(self.objs)]
+
+    # ---- identity, state, configuration
+    def make_unique_address(self, prefix):
+        nr = self._counters.get(prefix, 0) + 1
+        self._counters[prefix] = nr
+        return self.sim.M.QMI_MessageHandlerAddress(self.name, prefix + str(nr))
+
+    def make_unique_token(self, prefix="$lock_"):
+        nr = self._counters.get(prefix, 0) + 1
+        self._counters[prefix] = nr
+        return (self.name, "%ssim_%d" % (prefix, nr))
+
+    def is_active(self):
+        return True
+
+    active = started = True
+
+    def shutdown_requested(self):
+        return False
+
+    def get_version(self):
+        import qmi
+        return qmi.__version__
+
+    def info(self):
+        return "stub context %s" % self.name
+
+    def get_tcp_server_port(self):
+        return 0
+
+    def get_configured_contexts(self):
+        return {}
+
+    # ---- the pub/sub front end of the context delegates to the manager under test
+    def subscribe_signal(self, publisher_context, publisher_name, signal_name, receiver):
+        self.sim.mgr[self.name].subscribe_signal(publisher_context, publisher_name, signal_name, receiver)
+
+    def unsubscribe_signal(self, publisher_context, publisher_name, signal_name, receiver):
+        self.sim.mgr[self.name].unsubscribe_signal(publisher_context, publisher_name, signal_name, receiver)
+
+    def publish_signal(self, publisher_name, signal_name, *args):
+        self.sim.mgr[self.name].publish_signal(publisher_name, signal_name, args)
+
+    def __getattr__(self, attr):
+        import common
+        if attr.startswith("__"):
+            raise AttributeError(attr)
+        raise common.TieBroken("the code under test uses QMI_Context.%s, which the stub context of the H2 simulation does not "
+                               "provide (new dependency of SignalManager on its context)" % attr)
 
 
 class Sim:
